@@ -430,10 +430,61 @@ Section Steps.
       destruct (Nat.eqb sh' sh) eqn:Es; [apply Nat.eqb_eq in Es; subst; apply Hs; exact Hin|exact Hin].
   Qed.
 
+  (* Store.DeleteShard, then the shard is created again *)
+  Lemma ts_drop_shard_ok A st sh :
+    ts_ok n A st -> ts_ok n (apply_op rx n A (ODropShard sh)) (ts_drop_shard n st sh).
+  Proof.
+    intros OK. pose proof OK as [Isf Hl Hd HA Hsh Hsfl]. unfold ts_drop_shard. cbn [apply_op].
+    set (A' := filter (fun p => negb (Nat.eqb (fst p) sh)) A).
+    assert (HA' : forall sh' s, In (sh', s) A' <-> In (sh', s) A /\ sh' <> sh).
+    { intros sh' s. unfold A'. rewrite filter_In. cbn [fst]. rewrite negb_true_iff, Nat.eqb_neq. tauto. }
+    destruct (valid_shard n sh) eqn:Hv.
+    2: { apply (ts_ok_ext A); [|exact OK]. intros [sh' s]. rewrite HA'. split; [tauto|]. intros H. split; [exact H|].
+         intros ->. destruct (HA sh s H) as [Hv' _]. congruence. }
+    set (sf := ts_sf st) in *. set (t := ts_get st sh).
+    set (shards := upd_nth (sh - 1) tsi_empty (ts_sh st)).
+    assert (Hget : forall sh', valid_shard n sh' = true -> nth (sh' - 1) shards tsi_empty = if Nat.eqb sh' sh then tsi_empty else ts_get st sh').
+    { intros sh' Hv'. destruct (ts_get_upd st sh sh' tsi_empty n Hl Hv) as [H|H]; [exact H|congruence]. }
+    set (dead := filter (fun i => negb (existsb (fun t0 => memb N.eqb i (t_sids t0)) shards)) (t_sids t)).
+    assert (Hdead : forall i sh', In i dead -> valid_shard n sh' = true -> ~ In i (t_sids (nth (sh' - 1) shards tsi_empty))).
+    { intros i sh' Hi Hv' Hin. unfold dead in Hi. apply filter_In in Hi. destruct Hi as [_ Hi]. apply negb_true_iff in Hi.
+      rewrite existsb_false in Hi. specialize (Hi (nth (sh' - 1) shards tsi_empty)).
+      rewrite (proj2 (memb_In N.eqb N.eqb_eq _ _) Hin) in Hi. discriminate Hi.
+      apply nth_In. unfold shards. rewrite upd_nth_length, Hl. apply valid_shard_iff in Hv'. lia. }
+    destruct (sf_delete_fold dead sf Isf) as [I' [Hn' [Hk' [Ho' Hd']]]]. cbv zeta in *.
+    set (sf' := fold_left sf_delete dead sf) in *.
+    assert (E' : sf_ext sf sf') by (constructor; [rewrite Hn'; lia|intros i s H; left; rewrite <- Hk'; exact H]).
+    constructor; cbn [ts_sf ts_data ts_sh].
+    - exact I'.
+    - unfold shards. rewrite upd_nth_length. exact Hl.
+    - intros [sh' s]. rewrite filter_In, Hd, HA'. cbn [fst]. rewrite negb_true_iff, Nat.eqb_neq. tauto.
+    - intros sh' s Hin. apply HA' in Hin. apply HA. tauto.
+    - intros sh' Hv'. unfold ts_get. cbn [ts_sh]. fold shards. rewrite (Hget sh' Hv'). destruct (Nat.eqb sh' sh) eqn:Es.
+      + apply Nat.eqb_eq in Es. subst sh'. apply (shard_ok_ext sf' []); [|apply shard_ok_empty; exact I'].
+        intros x. rewrite In_shard_set, HA'. cbn. tauto.
+      + apply Nat.eqb_neq in Es. apply (shard_ok_ext sf' (shard_set A sh')).
+        * intros x. rewrite !In_shard_set, HA'. tauto.
+        * apply (shard_sf_same sf sf'); auto.
+          intros i Hi. apply Ho'. intros Hin. apply (Hdead i sh' Hin Hv'). rewrite (Hget sh' Hv'). apply Nat.eqb_neq in Es. rewrite Es. exact Hi.
+    - intros i s Hk Hdel. fold shards. rewrite Hk' in Hk.
+      assert (Hnd' : ~ In i dead) by (intros Hin; rewrite (Hd' i Hin) in Hdel; discriminate).
+      rewrite (Ho' i Hnd') in Hdel. destruct (Hsfl i s Hk Hdel) as [sh' [Hv' Hin]].
+      destruct (Nat.eqb sh' sh) eqn:Es.
+      + apply Nat.eqb_eq in Es. subst sh'. fold t in Hin.
+        assert (Hex : existsb (fun t0 => memb N.eqb i (t_sids t0)) shards = true).
+        { destruct (existsb (fun t0 => memb N.eqb i (t_sids t0)) shards) eqn:Ex; [reflexivity|]. exfalso. apply Hnd'.
+          unfold dead. apply filter_In. split; [exact Hin|rewrite Ex; reflexivity]. }
+        apply existsb_exists in Hex. destruct Hex as [t0 [Ht0 Hm]]. apply (memb_In N.eqb N.eqb_eq) in Hm.
+        apply (In_nth _ _ tsi_empty) in Ht0. destruct Ht0 as [k [Hk0 E0]]. exists (Datatypes.S k). split.
+        * apply valid_shard_iff. unfold shards in Hk0. rewrite upd_nth_length, Hl in Hk0. lia.
+        * unfold ts_get. cbn [ts_sh]. fold shards. cbn. rewrite Nat.sub_0_r, E0. exact Hm.
+      + exists sh'. split; [exact Hv'|]. unfold ts_get. cbn [ts_sh]. fold shards. rewrite (Hget sh' Hv'), Es. exact Hin.
+  Qed.
+
   Theorem ts_step_ok A st o :
     wf_op o = true -> ts_ok n A st -> ts_ok n (apply_op rx n A o) (ts_step rx n st o).
   Proof.
-    intros Hwf OK. destruct o as [sh ss|shs from c|m|sh|sh lvl| |sh| ]; cbn [ts_step].
+    intros Hwf OK. destruct o as [sh ss|shs from c|m|sh|sh|sh lvl| |sh| | ]; cbn [ts_step].
     - apply ts_write_ok; assumption.
     - (* DELETE *)
       destruct (ts_delete_shards_ok from c (filter (fun sh => memb Nat.eqb sh shs) (seq 1 n)) A st OK) as [A' [OK' HA']].
@@ -455,6 +506,8 @@ Section Steps.
       + intros [Hin Hb]. split; [exact Hin|]. intros [_ [Hf _]]. congruence.
       + intros [Hin Hn]. split; [exact Hin|]. destruct (str_eqb (fst s) m) eqn:E; [|reflexivity]. exfalso. apply Hn.
         ssplit; auto. apply (tk_A _ _ _ OK sh s Hin).
+    - (* shard deletion *)
+      apply ts_drop_shard_ok. exact OK.
     - (* log compaction *)
       cbn [apply_op]. destruct (valid_shard n sh) eqn:Hv; [|exact OK].
       apply ts_set_ok; auto; [apply tsi_compact_log_ok; apply (tk_shard _ _ _ OK sh Hv)|reflexivity].
@@ -470,6 +523,12 @@ Section Steps.
       + intros sh Hv. apply shard_sf_compact; [exact Isf|apply Hsh; exact Hv].
       + intros i s Hk Hdl. rewrite Hdel in Hdl. rewrite Hkey, Hdl in Hk. apply (Hsfl i s Hk Hdl).
     - exact OK.
+    - (* a new series-file segment *)
+      cbn [apply_op]. destruct OK as [Isf Hl Hd HA Hsh Hsfl].
+      destruct (sf_roll_spec (ts_sf st) Isf) as [I' [Hn [Hkey [Hdel _]]]].
+      constructor; cbn [ts_sf ts_data ts_sh]; auto.
+      intros sh Hv. apply (shard_sf_same (ts_sf st)); auto; [|apply Hsh; exact Hv].
+      constructor; [rewrite Hn; lia|intros i s H; left; rewrite Hkey in H; exact H].
     - (* reopen *)
       cbn [apply_op]. destruct OK as [Isf Hl Hd HA Hsh Hsfl]. rewrite (sf_reopen_id (ts_sf st) Isf).
       assert (Hget : forall sh, valid_shard n sh = true ->
